@@ -18,6 +18,7 @@ package finisher
 //@   property C01
 //@   attr hooked inputCh,sourceProducedCh,sourceFinishedCh,MarkAsFinished,ReceiveFeedback
 //@   attr cancellable @C03 inputCh,ResumeCh
+//@   attr cancellable @C14 inputCh+PauseCh
 //@   local ackd int = 0
 //@   after selrecv(PauseCh): ackd = 1
 //@   after selsend(ResumeCh): ackd = 0
